@@ -2,6 +2,7 @@
     finite SET of atoms; [\Recent] cannot be named by a client (RFC 3501 2.3.2:
     "This flag can not be altered by the client").
 
+    (sets of flag KEYS, see [fkey])
       FLAGS  new  =>  new \ {\Recent}
       +FLAGS new  =>  cur ∪ (new \ {\Recent})
       -FLAGS new  =>  cur \ (new \ {\Recent})                                  *)
@@ -17,30 +18,40 @@ Definition item_of (s : str) : option item :=
   else if str_eqb s IT_DEL then Some Remove
   else None.
 
-(** [f] is named by the client *)
-Definition named (new : list str) (f : str) : Prop := In f new /\ f <> RECENT.
+(** Flag names are case-insensitive (RFC 3501 section 9): a flag is identified
+    by its KEY, the ASCII upper-casing of its spelling; a flag list denotes the
+    set of the keys of its atoms. *)
+Definition fkey (f : str) : str := to_upper f.
+Definition keys (l : list str) : list str := map fkey l.
+Arguments fkey : simpl never.
 
-(** membership of atom [f] in the flag set after the update *)
-Definition apply_rel (it : item) (cur new : list str) (f : str) : Prop :=
+(** key [k] is named by the client *)
+Definition named (new : list str) (k : str) : Prop := In k (keys new) /\ k <> fkey RECENT.
+
+(** membership of key [k] in the flag set after the update *)
+Definition apply_rel (it : item) (cur new : list str) (k : str) : Prop :=
   match it with
-  | Replace => named new f
-  | Add => In f cur \/ named new f
-  | Remove => In f cur /\ ~ named new f
+  | Replace => named new k
+  | Add => In k (keys cur) \/ named new k
+  | Remove => In k (keys cur) /\ ~ named new k
   end.
 
 (** the same, decidable (used as the executable oracle) *)
-Definition named_b (new : list str) (f : str) : bool := mem f new && negb (str_eqb f RECENT).
-Definition apply_b (it : item) (cur new : list str) (f : str) : bool :=
+Definition named_b (new : list str) (k : str) : bool := mem k (keys new) && negb (str_eqb k (fkey RECENT)).
+Definition apply_b (it : item) (cur new : list str) (k : str) : bool :=
   match it with
-  | Replace => named_b new f
-  | Add => mem f cur || named_b new f
-  | Remove => mem f cur && negb (named_b new f)
+  | Replace => named_b new k
+  | Add => mem k (keys cur) || named_b new k
+  | Remove => mem k (keys cur) && negb (named_b new k)
   end.
 
-(** [out] is a correct result: for every atom of the finite universe
-    cur ∪ new ∪ out, membership in [out] is [apply_b]; and no duplicates *)
 Fixpoint nodup_b (l : list str) : bool :=
   match l with [] => true | x :: l' => negb (mem x l') && nodup_b l' end.
 
+(** [out] is a correct result: for every key of the finite universe
+    cur ∪ new ∪ out, membership of the key in [out] is [apply_b]; no flag twice
+    (in any spelling); every atom of [out] is a spelling the client or the
+    store supplied *)
 Definition apply_ok (it : item) (cur new out : list str) : bool :=
-  forallb (fun f => Bool.eqb (mem f out) (apply_b it cur new f)) (cur ++ new ++ out) && nodup_b out.
+  forallb (fun k => Bool.eqb (mem k (keys out)) (apply_b it cur new k)) (keys (cur ++ new ++ out))
+  && nodup_b (keys out) && incl_b out (cur ++ new).
